@@ -202,7 +202,8 @@ theorem C06_fragment_alias_witness :
 
 /-- **C06 on the general class**: one requested return bit `r`, the definition list in the class of
 `C03_general_partial` (`inGeneralClean`: intermediates first – shared sub-expressions and cache hits inside and
-across definitions, re-used ancillas –, every name defined once, no constants), final uncomputation on.  If the
+across definitions, re-binding, constants, re-used ancillas –, the return bit a new name defined once, last), final
+uncomputation on.  If the
 output qubit is not an argument qubit and the compiled circuit never uses it as a control (`retNeverControl`, a
 decidable check on the compiled gate list – it fails e.g. when the return bit is an alias of an intermediate that
 other gates read), the circuit is an xor-oracle `|x⟩|y⟩ ↦ |x⟩|y ⊕ f(x)⟩` for the value `f` the reference semantics
@@ -220,7 +221,7 @@ theorem C06_general_partial (inputs : List String) (defs : List (String × BExp)
   have hf' := hf
   simp only [inGeneralClean, inGeneral, Bool.and_eq_true, decide_eq_true_eq, List.all_eq_true,
     Bool.not_eq_true', Bool.or_eq_true, List.contains_eq_mem, List.any_eq_true, beq_iff_eq] at hf'
-  obtain ⟨⟨⟨⟨⟨hnd, hfr⟩, hgen⟩, hrets⟩, hfresh⟩, hkr⟩ := hf'
+  obtain ⟨⟨⟨⟨hnd, hfr⟩, hgen⟩, hrets⟩, hkr⟩ := hf'
   apply xor_oracle_of_clean _ _ _ _ _ hqn hnc
   intro x hx
   have hr : r ∈ inputs ∨ ∃ p ∈ defs, p.1 = r := by
@@ -240,7 +241,7 @@ theorem C06_general_partial (inputs : List String) (defs : List (String × BExp)
       have hl : i < (initState x s.qc.numQubits).length := by
         rw [initState_length x _ (by rw [hx]; omega)]; exact hqlt
       simp [List.getD_eq_getElem?_getD, hl]
-    · obtain ⟨c1, c2⟩ := compile_general_clean h hnd hfr hgen hfresh hkr x hx i
+    · obtain ⟨c1, c2⟩ := compile_general_clean h hnd hfr hgen hkr x hx i
       have hset : ((initState x s.qc.numQubits).set q (envOf (evalDefs defs (inputs.zip x)) r)).getD i false =
           (initState x s.qc.numQubits).getD i false := by
         simp [List.getD_eq_getElem?_getD, Ne.symm hi]
